@@ -38,10 +38,12 @@ CLAIMED["C03"] = ("Partial proof. Proved: generic ECB encrypt/decrypt equals the
  "(every call satisfies the routine's assumed precondition, incl. the decrypt tail condition); HCTR universal hash feeds exactly the blocks of M||T zero-padded (one known finding, D4), "
  "mul/updateBlock memory safety; BC and OFBNLF modes (encrypt and decrypt, separate or in place): the mode's recurrence holds at every iteration with the operands' values at that point "
  "(BC: C_i = E_K(P_i xor F_i), F_{i+1} = F_i xor C_i; OFBNLF: K_i = E_K(K_{i-1}), C_i = E_{K_i}(P_i)), the chaining state left in the object is the one the next call continues from, memory safety, frame and termination for every length."
+ " SM4 mode glue: the CTR counter generator (*ctr).genCtr writes the previous counter block plus one as a 128-bit big-endian integer (the carry travels through all sixteen bytes, stated per byte) and nothing else; "
+ "CBC encryption through the single-block routine is memory safe for every number of blocks, writes only dst[0..len(src)) and the content of the object's own iv buffer and never keeps a reference to caller memory (SetIV likewise copies)."
  " The fused assembly is assumed and backed by a bounded differential check (labelled bounded). "
- "Not decided here: byte-level equality of XTS/HCTR outputs with their textbook definitions, CBC/CFB/OFB/CTR of crypto/cipher and the SM4 assembly fast paths of the modes, arm64/ppc64 assembly.",
- "Trusted: encryptSm4Xts/decryptSm4Xts(GB), encryptSm4Ecb, decryptBlocksChain, mul2/doubleTweaks assembly, cipher.Block/concurrentBlocks interface contracts, alias.InexactOverlap (unsafe), subtle.XORBytes.",
- "DESIGN.md §4 C03")
+ "Not decided here: byte-level equality of XTS/HCTR outputs with their textbook definitions, the CBC/CTR recurrences of the SM4 glue and CBC/CFB/OFB/CTR of crypto/cipher, the SM4 assembly fast paths of the modes, arm64/ppc64 assembly.",
+ "Trusted: encryptSm4Xts/decryptSm4Xts(GB), encryptSm4Ecb, decryptBlocksChain, mul2/doubleTweaks assembly, (*sm4CipherAsm).encrypt (one block = abstract E_K), cipher.Block/concurrentBlocks interface contracts, alias.InexactOverlap (unsafe), subtle.XORBytes.",
+ "DESIGN.md §0.8, §4 C03")
 
 CLAIMED["C13"] = ("Proof of absence of run-time panics (index, slice, nil dereference, division, conversion, explicit panic, and the panicking preconditions of "
  "crypto/cipher block modes and constructors) for every input of the functions under contract, with termination measures on the hand-written BER reader: "
@@ -97,7 +99,8 @@ CLAIMED["C09"] = ("Partial proof, of the strict-decoding clause only: for every 
 
 CLAIMED["C14"] = ("Partial proof of the gates that keep a wrong key from coming out of a container: SEC1 parseECPrivateKey returns only scalars in [1, n-1] (found and fixed D23: zero was accepted), "
  "sm2.NewPrivateKey only scalars in [1, n-2] of exactly 32 bytes, ecdh NewPrivateKey refuses 0 and >= n-1 and copies the bytes; ParseEnvelopedPrivateKey returns a key only if its public key "
- "equals the one carried in the envelope and rejects encrypted keys of partial block length; the pkcs ECB/CBC, cfca and sm9 key decoders under contract return a value or an error for every input "
+ "equals the one carried in the envelope and rejects encrypted keys of partial block length; the SM9 master private key constructors (signature and encryption) refuse scalars longer than 32 bytes before any reduction modulo the group order "
+ "(so an over-long encoding never yields a different key) and return no key with an error; the pkcs ECB/CBC, cfca and sm9 key decoders under contract return a value or an error for every input "
  "(shared with C13). Not decided: exact round trip Parse(Marshal(k)) == k for any container (encoding/asn1 reflection, PEM, crypto/x509 are outside the verifier's subset), wrong-password rejection "
  "(depends on padding/ASN.1 parse of random bytes), GCM tag checks (crypto/cipher).",
  "Trusted: math/big and internal/bigmod ghost-valued contracts, encoding/asn1.Unmarshal, crypto/elliptic, ecdsa.PublicKey.Equal, cryptobyte readers.",
@@ -125,26 +128,36 @@ CLAIMED["C11"] = ("Partial proof, of the seekable stream cipher (EEA / XORKeyStr
  "checkpoint k is the generator state at byte position k * bucketSize, bucket size a multiple of the round size, checkpoints cover every boundary below the generator position) is established by the constructors "
  "and preserved by reset, seek, appendState, XORKeyStream and XORKeyStreamAt; therefore, for every history of sequential and positioned calls, any lengths, any absolute offsets forwards or backwards and any bucket size, "
  "each call returns dst[j] = src[j] xor keystream byte (offset + j), in place or into a separate buffer, advances the position by len(src), never indexes out of range and terminates (loop measures). "
- "Not decided: the keystream itself (LFSR, bit reorganisation, F, S-boxes need bit-vector reasoning; assembly and generic generators are assumed), 128-EIA3 and the ZUC-256 MACs including the tail handling "
- "(known defect D8 of DESIGN.md section 5 has no check), stream positions at or above 2^62 bytes.",
- "Trusted: genKeyStream/genKeyStreamRev32 (assumed contracts), newZUCState, subtle.XORBytes, alias.InexactOverlap; callers do not pass slices aliasing the object's internal buffer.",
- "DESIGN.md §0.2, §4 C11")
+ "The MAC objects (128-EIA3 and the ZUC-256 MAC with 4/8/16-byte tags) over an ABSTRACT generator (a state is identified by its LFSR words and R1/R2; key/iv identity and word position are functions of it) and an ABSTRACT "
+ "per-block accumulation: a representation invariant over a ghost message (buffer fill = length mod 16, buffer = last bytes of the message, generator position = initial + tag words + 4 + 4 per absorbed block, the four window "
+ "key words, tag words = fold of the block function over the absorbed blocks) is established by NewHash/NewHash256 and Reset from ANY prior state and kept by Write for every length and every split, so the object's content is a "
+ "function of (initial state, message) only; Sum works on a copy (incl. the ZUC-256 tag words) and leaves every field and the ghost message unchanged; Finish absorbs the whole bytes, and returns the object to the initial view; "
+ "checkSum is memory safe for every buffer fill, 0..7 extra bits and the three tag sizes, absorbs the tail whenever bytes are buffered or extra bits are given, places the extra byte behind the buffered ones and draws exactly the key words the tail needs. "
+ "Not decided: the keystream itself (LFSR, bit reorganisation, F, S-boxes need bit-vector reasoning; assembly and generic generators are assumed), the bit-level accumulation inside a block and in the tail (so known defect D8 of DESIGN.md "
+ "section 5 - wrong ZUC-256 tail for 8/16-byte tags when more than 32 bits remain, re-found independently by a seeding sub-agent - still has no failing obligation), stream positions at or above 2^62 bytes.",
+ "Trusted: genKeyStream/genKeyStreamRev32/genKeywords (assumed contracts), block/block256 (assembly round function or generic bit loop = fold of the abstract block function, window sliding by four words), newZUCState, math/bits.RotateLeft32, subtle.XORBytes, alias.InexactOverlap; "
+ "the generator is idealised as never returning to an earlier state; callers do not pass slices aliasing the object's internal buffers.",
+ "DESIGN.md §0.2, §0.8, §4 C11")
 
 CLAIMED["C04"] = ("Partial proof, of the generic (pure Go) CCM in cipher/ccm.go over an abstract 128-bit block cipher and an assumed CTR stream: the counter block A_0 (flags L-1, nonce, zero counter) and the CTR start value 1; "
  "B_0 = flags || nonce || l(m) with flags = 64*[a present] + 8*((M-2)/2) + (L-1) for every nonce size 7..13 and tag size 4..16 (49 configurations), the associated-data length encoding (2 bytes below 2^16-2^8, ff fe + 4 bytes below 2^32, "
  "ff ff + 8 bytes) followed by the first bytes of a zero padded, then the rest of a, then the plaintext; Seal returns dst || (P xor keystream) || T, writes only the appended region and authenticates the plaintext as given also when sealing in place "
  "(found and fixed D28: the tag was computed after the plaintext had been overwritten); Open compares the whole received tag in constant time, returns plaintext only after a match and otherwise returns nil with the output region zeroed; "
- "the constructor admits exactly even tag sizes 4..16 and nonce sizes 7..13. Not decided: GCM (table-driven GHASH and the fused SM4-GCM assembly need carry-less multiplication reasoning), the SM4-specific CCM path, "
- "the CBC-MAC chaining inside cmac (a frame-only assumption here; the same construction is proved for cbcmac under C19), equality of the final tag with RFC 3610 test vectors.",
- "Trusted: crypto/cipher.NewCTR and Stream.XORKeyStream (abstract stream), cipher.Block interface, (*ccm).cmac (frame), MaxLength, subtle.XORBytes/ConstantTimeCompare, alias.InexactOverlap; Open's dst does not overlap the received tag.",
- "DESIGN.md §0.2, §4 C04")
+ "the constructor admits exactly even tag sizes 4..16 and nonce sizes 7..13; cmac is proved for every length: out becomes the CBC-MAC chaining value over the data zero-padded to whole blocks, started from its old content (recursive spec, loop invariant). "
+ "GCM glue: the fused-assembly AEAD (*gcmAsm).Seal only appends (result = dst followed by len(plaintext)+tagSize bytes, dst's visible part unchanged) and Open returns an error - never panics - for an input shorter than the tag, compares exactly the last tagSize "
+ "bytes of the input, returns plaintext only after ConstantTimeCompare == 1 and otherwise nil with the output region zeroed, writing only the appended region; gcmInc32 of the table-driven GCM is +1 mod 2^32 on the last four bytes, big endian, the other twelve unchanged. "
+ "Not decided: GHASH and the counter-mode bytes of GCM (carry-less multiplication; the fused assembly is assumed to write only its outputs), the table-driven GCM beyond inc32, the SM4-specific CCM path, "
+ "the composition of auth's three cmac calls into one RFC 3610 tag formula, equality of the final tags with test vectors.",
+ "Trusted: crypto/cipher.NewCTR and Stream.XORKeyStream (abstract stream), cipher.Block interface, gcmSm4Data/Finish/Enc/Dec (frames), (*sm4CipherAsm).encrypt, MaxLength, subtle.XORBytes/ConstantTimeCompare, alias.InexactOverlap; Open's dst does not overlap the received tag.",
+ "DESIGN.md §0.2, §0.8, §4 C04")
 
 CLAIMED["C16"] = ("Partial proof of the SignedData verification gates and of the BER reader: verifySignature returns nil only if - with authenticated attributes present - the messageDigest attribute compared equal "
  "(constant time) with the digest of exactly the message content (or with the content itself in digest mode) and the signature was then checked over the DER of the attributes, otherwise over the content; "
  "always with the certificate selected by the signer's issuer and serial number and with the signer's own signature value; and, when a trust store is given, only after the chain verification of that certificate "
  "succeeded; verifyWithChain requires at least one signer and verifies every signer in turn (a missing loop or a skipped signer fails an obligation); the hand-written BER reader (readObject, "
- "isIndefiniteTermination) never indexes outside its input and terminates (measure) for every byte string. Not decided: that no alteration of an encoded message still verifies (whole-message property over "
- "encoding/asn1 and x509), signing (NewSignedData/AddSigner/Finish), EnvelopedData/EncryptedData recipient lookup and decryption, SignedAndEnvelopedData, ber2der leaving DER unchanged, cfca wrappers.",
+ "isIndefiniteTermination) never indexes outside its input and terminates (measure) for every byte string; lengthLength (DER length octets of the BER to DER re-encoder) returns the minimal number of octets for every non-negative int "
+ "(256^(n-1) <= i < 256^n). Not decided: that no alteration of an encoded message still verifies (whole-message property over "
+ "encoding/asn1 and x509), signing (NewSignedData/AddSigner/Finish), EnvelopedData/EncryptedData recipient lookup and decryption, SignedAndEnvelopedData, ber2der leaving DER unchanged beyond the length octets, cfca wrappers.",
  "Trusted: getCertFromCertsByIssuerAndSerial, unmarshalAttribute, marshalAttributes, getHashForOID/newHash, verifyCertChain, Certificate.CheckSignature(WithDigest) (frames only), hash.Hash interface, subtle.ConstantTimeCompare.",
  "DESIGN.md §0.2, §4 C16")
 
